@@ -1,4 +1,5 @@
 """C06 - a port reads and writes the same store node, for every topology."""
+import copy
 from vivarium.core.engine import Engine
 from vivarium.core.process import Process
 
@@ -24,14 +25,16 @@ GOALS = {'quick': ['two port variables on one node', 'dotdot in a path',
                    'inner glob child declared by a process',
                    '_path dictionary with the empty path',
                    'scalar port on a top-level variable',
-                   'port split by a plain dictionary'],
+                   'port split by a plain dictionary',
+                   'glob port wired by a dictionary under *'],
          'thorough': ['two port variables on one node', 'dotdot in a path',
                       '_path dictionary port', 'glob port', 'scalar port',
                       'nested schema port', 'glob below a glob',
                       'inner glob child declared by a process',
                       '_path dictionary with the empty path',
                       'scalar port on a top-level variable',
-                      'port split by a plain dictionary']}
+                      'port split by a plain dictionary',
+                      'glob port wired by a dictionary under *']}
 STUBS = ['one process whose ports schema / topology are produced by a generator '
          'driven by solver-decided choices; it records the states of its first '
          'invocation and returns symbolic updates for every port variable',
@@ -52,7 +55,7 @@ OUTSIDE = "'**' ports, _reduce, ill-formed topologies (undeclared ports are " \
 
 PLAIN = [('A',), ('B',), ('A', 'inner'), ('..', 'A'), ('..', 'up', 'B'),
          ('A', '..', 'B'), ('B', 'inner', '..')]
-KINDS = ['dict', 'scalar', 'pathdict', 'glob', 'nested', 'split']
+KINDS = ['dict', 'scalar', 'pathdict', 'glob', 'nested', 'split', 'globdict']
 
 
 class P(Process):
@@ -66,9 +69,12 @@ class P(Process):
         return self._s
 
     def next_update(self, timestep, states):
+        # the same update is returned at the first two invocations
+        self.calls = getattr(self, 'calls', 0) + 1
         if self.seen is None:
             self.seen = states
-            return self.upd
+        if self.calls <= 2:
+            return copy.deepcopy(self.upd)
         return {}
 
 
@@ -79,6 +85,10 @@ def jobs(tier):
         for k0 in range(len(KINDS)):
             out.append(dict(name='d%d-%s' % (depth, KINDS[k0]), depth=depth,
                             k0=k0, nports=3 if (not q or depth == 0) else 2,
+                            # quick: the later ports take one of the first
+                            # six kinds (every kind is the first port of
+                            # some job)
+                            other_kinds=6 if q else len(KINDS),
                             budget_s=100 if q else 1500,
                             crosscheck=0 if q else 20))
     out.append(dict(name='glob-below-glob', part='globglob',
@@ -193,7 +203,8 @@ def body(ctx, cfg):
     nested_ports = set()
     for i in range(cfg['nports']):
         port = 'p%d' % i
-        kind = cfg['k0'] if i == 0 else ctx.choice('kind', len(KINDS))
+        kind = cfg['k0'] if i == 0 else ctx.choice(
+            'kind', cfg.get('other_kinds', len(KINDS)))
         w = PLAIN[ctx.choice('w', len(PLAIN))]
         if resolve(parent, w) is None or (
                 w[0] == '..' and resolve(parent, w[:2]) is None):
@@ -243,6 +254,15 @@ def body(ctx, cfg):
             targets[(port, 'v', None)] = base + ('v',)
             targets[(port, 'u', None)] = resolve(parent, other)
             ctx.goal('port split by a plain dictionary')
+        elif KINDS[kind] == 'globdict':
+            # a glob port whose '*' entry is a dictionary carrying the '_path'
+            # of the store whose children it lists
+            schema[port] = {'*': {'v': {'_default': 0}}}
+            topo[port] = {'*': {'_path': w, 'v': ('v',)}}
+            globs[port] = base
+            for child in ('inner', 'c2'):
+                targets[(port, 'v', child)] = base + (child, 'v')
+            ctx.goal('glob port wired by a dictionary under *')
         elif KINDS[kind] == 'nested':
             # schema nested two levels under the port: port -> inner -> v
             schema[port] = {'inner': {'v': {'_default': 0}},
@@ -305,7 +325,8 @@ def body(ctx, cfg):
                display_info=False, emitter='null')
     before = {p: (id(n), n.value) for p, n in store_nodes(e.state).items()
               if not n.inner and not isinstance(n.value, Process)}
-    e.update(1)
+    topology_given = copy.deepcopy(topology)
+    e.update(2)          # two invocations, the same update each time
     st = proc.seen
     final = e.state.get_value()
     # ---- read
@@ -332,7 +353,7 @@ def body(ctx, cfg):
         exp = iv[n]
         for key, t in targets.items():
             if t == n:
-                exp = exp + up[key]
+                exp = exp + 2 * up[key]
         write.append(EQ(get(final, n, None), exp))
         ctx.observe('node', get(final, n, None))
     kinds = '+'.join(sorted(set(
@@ -355,4 +376,6 @@ def body(ctx, cfg):
         frame.append(EQ(after[p][1], v))
     for n in nodes:
         frame.append(n in after and n in before and after[n][0] == before[n][0])
+    # the topology the caller handed in is not modified
+    frame.append(topology == topology_given)
     ctx.claim('C06.frame', AND(frame), sig='frame', info=info)
